@@ -130,6 +130,14 @@ PROPS = {
     'C08': dict(
         level_text='Bounded model checking of the eager header-row re-windowing on the real Reader methods of Xls and Ods: a workbook value holding one 2x2 sheet (concrete emptiness pattern, symbolic values) is read with HeaderRow::Row(n) for n before / at / inside / just after / far after the data and u32::MAX, and with the default option; never an error or panic, range starts exactly at n or is empty, every position at or below n keeps its value, rows above the data are Empty; option changes only store the option.',
         hosts={'src/xls.rs': ['c08_xls.rs'], 'src/ods.rs': ['c08_ods.rs']},
+        substitutions=[
+            dict(file='src/xls.rs', old='    sheets: BTreeMap<String, SheetData>,\n', new='    sheets: k_c08_xls::KMap<String, SheetData>,\n', count=1, why='Xls.sheets: BTreeMap -> association-list model KMap (std container stub; same get/insert/iter API subset)'),
+            dict(file='src/xls.rs', old='            sheets: BTreeMap::new(),\n', new='            sheets: k_c08_xls::KMap::new(),\n', count=1, why='constructor site'),
+            dict(file='src/xls.rs', old='        let mut sheets = BTreeMap::new();\n', new='        let mut sheets = k_c08_xls::KMap::new();\n', count=1, why='parse_workbook builds the table'),
+            dict(file='src/ods.rs', old='    sheets: BTreeMap<String, (Range<Data>, Range<String>)>,\n', new='    sheets: k_c08_ods::KMap<String, (Range<Data>, Range<String>)>,\n', count=2, why='Ods.sheets / Content.sheets: BTreeMap -> KMap'),
+            dict(file='src/ods.rs', old='    let mut sheets = BTreeMap::new();\n', new='    let mut sheets = k_c08_ods::KMap::new();\n', count=1, why='parse_content builds the table'),
+        ],
+        stubs=['std BTreeMap of the sheet table -> KMap association list (overlay substitution, declared above)'],
         functions=['xls::Xls::worksheet_range', 'xls::Xls::with_header_row', 'ods::Ods::worksheet_range', 'ods::Ods::with_header_row', 'Range::range', 'Range::new'],
         bounds={'sheet': 'one sheet, 2x2 used range at origin (2,1), 4 emptiness patterns', 'header row': 'n in {0, 1, 2, 3, 4, 4e9, u32::MAX} (shape), symbolic n only for the option store'},
         outside=['the lazy implementation in Xlsx/Xlsb::worksheet_range_ref (zip-bound generic methods)', 'larger sheets'],
@@ -150,16 +158,16 @@ PROPS = {
         features=['dates'],
         functions=['datatype::ExcelDateTime::as_datetime', 'datatype::ExcelDateTime::as_duration', 'DataType::as_datetime/as_date/as_time for Data'],
         stubs=['chrono::NaiveDateTime::checked_add_signed -> records the TimeDelta in ms (chrono calendar arithmetic trusted; anchors run it un-stubbed)'],
-        bounds={'whole days': 'every d in 0..=2958465: 1900 system all 17 low binades + all 45 slices of 65536 days quick; 1904 system 5 binades + 3 slices quick, all thorough', 'time of day': 'k ms on day 0: low binades (k < 65536) and 6 slices of 65536 ms (after the binades, 08:19, noon, 16:39, end of day) quick; every 16th slice thorough; the other slices are not covered',
+        bounds={'whole days': 'every d in 0..=2958465: 1900 system all 17 low binades + every third of the 45 slices of 65536 days quick (all thorough); 1904 system 5 binades + 3 slices quick, all thorough', 'time of day': 'k ms on day 0: low binades (k < 65536) and 6 slices of 65536 ms (after the binades, 08:19, noon, 16:39, end of day) quick; every 16th slice thorough; the other slices are not covered',
                 'durations': 'whole days: 4 binades + 3 slices quick, all thorough'},
         outside=['fractional serials on days other than 0 (other (d,k) combinations)', 'global monotonicity as a relational query over two f64 products (no back end terminates); only the shim boundary is posed', 'ISO string parsing paths (chrono parsers)'],
         assumptions=[],
     ),
     'C15': dict(
-        level_text='Bounded model checking of the real shared-formula text rewriter (replace_cell_names -> offset_cell_name -> coordinate_to_name / column_number_to_name / get_row_column) on nine master-formula templates (relative, absolute and mixed references, area inside a function call, quoted cell-like text, function name with digits, sheet-qualified reference) for every member offset in 0..=2 x 0..=2, against the rule stated by the property; plus column_number_to_name == bijective base-26 and its inverse for every column of the sheet.',
+        level_text='Bounded model checking of the real shared-formula text rewriter (replace_cell_names -> offset_cell_name -> coordinate_to_name / column_number_to_name / get_row_column) on master-formula templates for every member offset in 0..=2 x 0..=2 (quick: a single relative reference with both / one offset dimension symbolic and a fully absolute reference; thorough attempts the larger templates - two references, area in a function call, quoted text, mixed references, function name with digits, sheet-qualified reference - which exceed 12 GB in the quick configuration), against the rule stated by the property; plus column_number_to_name == bijective base-26 and its inverse for every column of the sheet.',
         hosts={'src/xlsx/mod.rs': ['c15_xlsx.rs']},
         functions=['xlsx::replace_cell_names', 'xlsx::offset_cell_name', 'xlsx::coordinate_to_name', 'xlsx::column_number_to_name', 'xlsx::get_row_column'],
-        bounds={'templates': '9 concrete master formulas', 'offsets': 'dr, dc symbolic in 0..=2', 'column names': 'all columns 0..16383 by letter count, and rejection of every column >= 16384'},
+        bounds={'templates': 'quick: "B3", "$B$3"; thorough: 7 more', 'offsets': 'dr, dc symbolic in 0..=2', 'column names': 'all columns 0..16383 by letter count, and rejection of every column >= 16384'},
         outside=['the offset map built from the ref attribute and the group shapes (inline in XlsxCellReader::next_formula, XML-bound)', 'other templates / larger offsets', 'negative offsets'],
         assumptions=[],
     ),
@@ -189,10 +197,10 @@ RULES = [
     (r'^c06_q_xls_mul_rk', dict(arena=256)),
     (r'^c06_q_lib_from_sparse', dict(arena=64, ignore_pointer=True)),
     (r'^c06_q_cfb_header', dict(arena=512, fs_array=64)),
-    (r'^c15_', dict(arena=64, timeout=600, mem_gb=12.0)),
+    (r'^c15_', dict(arena=64, timeout=600, mem_gb=12.0, unwindset={'18replace_cell_names': 14, '4TBuf': 20, '5check': 20})),
     (r'^c11_', dict(arena=64, timeout=600, mem_gb=6.0)),
     (r'^c09_', dict(arena=256, timeout=400, mem_gb=10.0)),
-    (r'^c08_', dict(arena=256, arena_big=2048, fs_array=256, timeout=300, mem_gb=12.0)),
+    (r'^c08_', dict(arena=256, timeout=300, mem_gb=12.0)),
     (r'^c03_', dict(arena=64)),
     (r'^c03_[qt]_fill_buffer', dict(arena=256)),
     (r'^c13_[qt]_(chain|cutoff|stream|twin)', dict(arena=64)),
